@@ -224,3 +224,18 @@ Theorem qgauss2_shapes_unchanged_refuted :
   F.wgrid_shape true 3 4 = None /\                  (* QGauss2(3,4): ValueError in _setup        *)
   F.integrand_shape true 1 3 = Some (3, 3).          (* QGauss2(1,3): a (3,3) sum for a (3,1) mesh *)
 Proof. split; reflexivity. Qed.
+
+(* ------------------------------------------------------------------ (3) QGauss.integrate dispatch *)
+(* repaired: every function integrand reaches the function integrator, every table the data one *)
+Theorem dispatch_repaired k :
+  (is_callable k = true -> dispatch false k = RFunc) /\ (is_callable k = false -> dispatch false k = RData).
+Proof. unfold dispatch. destruct (is_callable k); split; intros H; try reflexivity; discriminate. Qed.
+
+(* unchanged: a ufunc (np.sin) is sent to the data integrator ... *)
+Theorem dispatch_unchanged_refuted : exists k, is_callable k = true /\ dispatch true k = RData.
+Proof. exists YUfunc. split; reflexivity. Qed.
+
+(* ... and outside that class the unchanged dispatch agrees with the repaired one *)
+Theorem dispatch_unchanged_outside_known k :
+  kf_callable_not_function k = false -> dispatch true k = dispatch false k.
+Proof. destruct k; simpl; intros H; try reflexivity; discriminate. Qed.
